@@ -1,4 +1,249 @@
-import StrumModel
+import StrumProofs.Lemmas.Overlap
+/-
+C01 — EnumString returns variant V iff the input is one of V's declared spellings.
+
+Model: `parse d s = (genFromStr d).map (·.eval s)` (StrumModel/FromStr.lean), mirroring
+strum_macros/src/macros/strings/from_string.rs.  Spec: `accepts d v s` (StrumModel/Overlap.lean):
+`s` equals one of `v`'s spellings, exactly or ignoring ASCII case when `v` is case-insensitive.
+All statements quantify over every definition `d` and every byte string `s`.
+The `use_phf` code path is related to this one by C16 (`phf_same_result`).
+-/
 namespace Strum
-theorem c01_placeholder : True := trivial
+
+theorem inj_of_nodup_map {α β : Type} (f : α → β) (l : List α) (h : (l.map f).Nodup) :
+    ∀ a ∈ l, ∀ b ∈ l, f a = f b → a = b := by
+  induction l with
+  | nil => intro a ha; simp at ha
+  | cons x xs ih =>
+    simp only [List.map_cons, List.nodup_cons, List.mem_map, not_exists, not_and] at h
+    intro a ha b hb hab
+    simp only [List.mem_cons] at ha hb
+    rcases ha with rfl | ha <;> rcases hb with rfl | hb
+    · rfl
+    · exact absurd hab.symm (h.1 b hb)
+    · exact absurd hab (h.1 a ha)
+    · exact ih h.2 a ha b hb hab
+
+theorem phf_nil_of_nophf (d : EnumDef) (h : d.usePhf = false) (vs : List Variant) :
+    vs.flatMap (phfOfVariant d) = [] := by
+  induction vs with
+  | nil => rfl
+  | cons v vs ih => simp [List.flatMap_cons, phfOfVariant, h, ih]
+
+/-- what the generator produces without `use_phf` -/
+theorem genFromStr_nophf (d : EnumDef) (h : d.usePhf = false) :
+    genFromStr d =
+      match d.defaults with
+      | [] => .ok ⟨[], d.candidates.flatMap (armsOfVariant d),
+                   if d.customErr then .errCustom else .errStd,
+                   if d.customErr then .custom else .strumParseError⟩
+      | [v] => if v.fields.arity = 1
+               then .ok ⟨[], d.candidates.flatMap (armsOfVariant d), .okCapture v.ident, .strumParseError⟩
+               else .error .defaultShape
+      | _ :: _ :: _ => .error .twoDefaults := by
+  unfold genFromStr
+  simp only [phf_nil_of_nophf d h, List.map_nil, hasDupKey]
+  rfl
+
+theorem gen_arms_nophf (d : EnumDef) (h : d.usePhf = false) (p : FromStrImpl) (hg : genFromStr d = .ok p) :
+    p.phf = [] ∧ p.arms = d.candidates.flatMap (armsOfVariant d) := by
+  rw [genFromStr_nophf d h] at hg
+  split at hg
+  · cases hg; exact ⟨rfl, rfl⟩
+  · split at hg
+    · cases hg; exact ⟨rfl, rfl⟩
+    · cases hg
+  · cases hg
+
+/-- **First-match characterisation (no non-overlap hypothesis).**  The parser returns the first
+    candidate variant, in declaration order, that accepts the input; otherwise the fall-through. -/
+theorem parse_first_match (d : EnumDef) (hphf : d.usePhf = false) (p : FromStrImpl)
+    (hg : genFromStr d = .ok p) (s : Bytes) :
+    parse d s = .ok (match d.candidates.find? (fun v => accepts d v s) with
+                     | some v => .ok v.ident (payloadOf v)
+                     | none => p.fall.eval s) := by
+  obtain ⟨hp, ha⟩ := gen_arms_nophf d hphf p hg
+  have hfm := firstMatch_flatMap d hphf d.candidates s
+  unfold parse
+  rw [hg]
+  simp only [Except.map, FromStrImpl.eval, hp, firstMatch, ha]
+  cases hf : firstMatch (d.candidates.flatMap (armsOfVariant d)) s with
+  | some a =>
+    rw [hf] at hfm
+    cases hc : d.candidates.find? (fun v => accepts d v s) with
+    | some v => rw [hc] at hfm; simp [Arm.result] at hfm; simp [hfm]
+    | none => rw [hc] at hfm; simp at hfm
+  | none =>
+    rw [hf] at hfm
+    cases hc : d.candidates.find? (fun v => accepts d v s) with
+    | some v => rw [hc] at hfm; simp at hfm
+    | none => rfl
+
+/-- **Accepting direction.**  Under non-overlap, an input that is one of `v`'s spellings yields `v`
+    with payload fields from `Default` / `default_with`. -/
+theorem parse_accepting (d : EnumDef) (hphf : d.usePhf = false) (p : FromStrImpl)
+    (hg : genFromStr d = .ok p) (hno : NoOverlap d) (s : Bytes) (v : Variant)
+    (hv : v ∈ d.candidates) (ha : accepts d v s = true) :
+    parse d s = .ok (.ok v.ident (payloadOf v)) := by
+  rw [parse_first_match d hphf p hg s]
+  cases hc : d.candidates.find? (fun v => accepts d v s) with
+  | none =>
+    have := List.find?_eq_none.1 hc v hv
+    simp [ha] at this
+  | some w =>
+    have hw := List.mem_of_find?_eq_some hc
+    have haw : accepts d w s = true := by simpa using List.find?_some hc
+    have := hno s v hv w hw ha haw
+    subst this; rfl
+
+/-- **Rejecting direction.**  An input that is no candidate's spelling goes to the fall-through:
+    the `default` variant capturing the input, or the error. -/
+theorem parse_other (d : EnumDef) (hphf : d.usePhf = false) (p : FromStrImpl)
+    (hg : genFromStr d = .ok p) (s : Bytes)
+    (h : ∀ v ∈ d.candidates, accepts d v s = false) :
+    parse d s = .ok (p.fall.eval s) := by
+  rw [parse_first_match d hphf p hg s]
+  have : d.candidates.find? (fun v => accepts d v s) = none := by
+    apply List.find?_eq_none.2
+    intro v hv; simp [h v hv]
+  rw [this]
+
+/-- the fall-through is the (single) enabled `default` variant when there is one, else the error
+    selected by `parse_err_ty`/`parse_err_fn` -/
+theorem fall_spec (d : EnumDef) (hphf : d.usePhf = false) (p : FromStrImpl) (hg : genFromStr d = .ok p) :
+    (d.defaults = [] ∧ p.fall = (if d.customErr then .errCustom else .errStd)) ∨
+    (∃ v, d.defaults = [v] ∧ v.fields.arity = 1 ∧ p.fall = .okCapture v.ident) := by
+  rw [genFromStr_nophf d hphf] at hg
+  split at hg
+  · next h0 => cases hg; exact Or.inl ⟨h0, rfl⟩
+  · next v h1 =>
+    split at hg
+    · next har => cases hg; exact Or.inr ⟨v, h1, har, rfl⟩
+    · cases hg
+  · cases hg
+
+/-- **iff (the property statement).**  Under non-overlap the parser yields `Ok` of a candidate
+    variant exactly when the input is one of that variant's spellings; any other `Ok` is the
+    default variant holding the input itself; everything else is an error. -/
+theorem parse_iff (d : EnumDef) (hphf : d.usePhf = false) (p : FromStrImpl)
+    (hg : genFromStr d = .ok p) (hno : NoOverlap d) (s : Bytes) (k : Bytes) (pl : List FieldInit) :
+    parse d s = .ok (.ok k pl) ↔
+      (∃ v ∈ d.candidates, accepts d v s = true ∧ k = v.ident ∧ pl = payloadOf v) ∨
+      ((∀ v ∈ d.candidates, accepts d v s = false) ∧
+        ∃ v, d.defaults = [v] ∧ k = v.ident ∧ pl = [.captured s]) := by
+  constructor
+  · intro h
+    rw [parse_first_match d hphf p hg s] at h
+    cases hc : d.candidates.find? (fun v => accepts d v s) with
+    | some w =>
+      rw [hc] at h
+      simp only [Except.ok.injEq, ParseOut.ok.injEq] at h
+      have hw := List.mem_of_find?_eq_some hc
+      have haw : accepts d w s = true := by simpa using List.find?_some hc
+      exact Or.inl ⟨w, hw, haw, h.1.symm, h.2.symm⟩
+    | none =>
+      rw [hc] at h
+      simp only [Except.ok.injEq] at h
+      have hnone : ∀ v ∈ d.candidates, accepts d v s = false := by
+        intro v hv; simpa using List.find?_eq_none.1 hc v hv
+      rcases fall_spec d hphf p hg with ⟨_, hf⟩ | ⟨v, hd, _, hf⟩
+      · rw [hf] at h; split at h <;> simp [Fallthrough.eval] at h
+      · rw [hf] at h
+        simp only [Fallthrough.eval, ParseOut.ok.injEq] at h
+        exact Or.inr ⟨hnone, v, hd, h.1.symm, h.2.symm⟩
+  · rintro (⟨v, hv, ha, rfl, rfl⟩ | ⟨hnone, v, hd, rfl, rfl⟩)
+    · exact parse_accepting d hphf p hg hno s v hv ha
+    · rw [parse_other d hphf p hg s hnone]
+      rcases fall_spec d hphf p hg with ⟨h0, _⟩ | ⟨w, hw, _, hf⟩
+      · rw [h0] at hd; cases hd
+      · rw [hw] at hd; cases hd; rw [hf]; rfl
+
+/-- **Error iff.**  The result is an error exactly when no candidate accepts the input and the enum
+    has no default variant; the error is the standard one or the user's function applied to the input. -/
+theorem parse_err_iff (d : EnumDef) (hphf : d.usePhf = false) (p : FromStrImpl)
+    (hg : genFromStr d = .ok p) (s : Bytes) :
+    (parse d s = .ok .errStd ↔ (∀ v ∈ d.candidates, accepts d v s = false) ∧ d.defaults = [] ∧ d.customErr = false) ∧
+    (∀ a, parse d s = .ok (.errCustom a) ↔
+      (∀ v ∈ d.candidates, accepts d v s = false) ∧ d.defaults = [] ∧ d.customErr = true ∧ a = s) := by
+  rw [parse_first_match d hphf p hg s]
+  cases hc : d.candidates.find? (fun v => accepts d v s) with
+  | some w =>
+    have hw := List.mem_of_find?_eq_some hc
+    have haw : accepts d w s = true := by simpa using List.find?_some hc
+    constructor
+    · constructor
+      · intro h; simp at h
+      · rintro ⟨h, _⟩; rw [h w hw] at haw; cases haw
+    · intro a; constructor
+      · intro h; simp at h
+      · rintro ⟨h, _⟩; rw [h w hw] at haw; cases haw
+  | none =>
+    have hnone : ∀ v ∈ d.candidates, accepts d v s = false := by
+      intro v hv; simpa using List.find?_eq_none.1 hc v hv
+    rcases fall_spec d hphf p hg with ⟨h0, hf⟩ | ⟨v, hd, _, hf⟩
+    · rw [hf]
+      cases hce : d.customErr
+      · simp only [Fallthrough.eval, h0]
+        simp
+        exact hnone
+      · simp only [Fallthrough.eval, h0]
+        simp
+        intro a
+        exact ⟨fun h => ⟨hnone, h.symm⟩, fun h => h.2.symm⟩
+    · rw [hf]; simp [Fallthrough.eval, hd]
+
+/-- **A disabled variant is never produced** (variant identifiers are unique, as rustc demands). -/
+theorem parse_never_disabled (d : EnumDef) (hphf : d.usePhf = false) (p : FromStrImpl)
+    (hg : genFromStr d = .ok p) (hid : (d.variants.map (·.ident)).Nodup)
+    (s : Bytes) (k : Bytes) (pl : List FieldInit)
+    (h : parse d s = .ok (.ok k pl)) : ∀ v ∈ d.variants, v.ident = k → v.disabled = false := by
+  -- the produced identifier belongs to an enabled variant
+  have hen : ∃ w ∈ d.variants, w.ident = k ∧ w.disabled = false := by
+    rw [parse_first_match d hphf p hg s] at h
+    cases hc : d.candidates.find? (fun v => accepts d v s) with
+    | some w =>
+      rw [hc] at h
+      simp only [Except.ok.injEq, ParseOut.ok.injEq] at h
+      have hw := List.mem_of_find?_eq_some hc
+      unfold EnumDef.candidates at hw
+      simp only [List.mem_filter, Bool.and_eq_true, Bool.not_eq_eq_eq_not, Bool.not_true] at hw
+      exact ⟨w, hw.1, h.1, hw.2.1⟩
+    | none =>
+      rw [hc] at h
+      simp only [Except.ok.injEq] at h
+      rcases fall_spec d hphf p hg with ⟨_, hf⟩ | ⟨v, hd, _, hf⟩
+      · rw [hf] at h; split at h <;> simp [Fallthrough.eval] at h
+      · rw [hf] at h
+        simp only [Fallthrough.eval, ParseOut.ok.injEq] at h
+        have hv : v ∈ d.defaults := by rw [hd]; simp
+        unfold EnumDef.defaults at hv
+        simp only [List.mem_filter, Bool.and_eq_true, Bool.not_eq_eq_eq_not, Bool.not_true] at hv
+        exact ⟨v, hv.1, h.1, hv.2.1⟩
+  obtain ⟨w, hw, hwk, hwd⟩ := hen
+  intro v hv hvk
+  have : v = w := by
+    exact inj_of_nodup_map (·.ident) d.variants hid v hv w hw (hvk.trans hwk.symm)
+  rw [this]; exact hwd
+
+/-- `TryFrom<&str>` is generated as a call to `FromStr::from_str` (from_string.rs:214-227); the model
+    has a single `parse`, and the correspondence compares both entry points on every input. -/
+theorem ci_flag (d : EnumDef) (v : Variant) :
+    d.ciOf v = (match v.ci with | some b => b | none => d.ci) := rfl
+
+/-! ### Non-vacuity: a concrete definition satisfying the hypotheses -/
+
+def exampleEnum : EnumDef :=
+  { name := [69], style := some .snake, ci := true,
+    variants := [
+      { ident := [82, 101, 100] },                                            -- Red (ci via enum)
+      { ident := [66, 108], ci := some false, serialize := [[98], [66, 66]] }, -- Bl, serialize "b","BB"
+      { ident := [79], isDefault := true, fields := .tuple 1 },               -- O(String) default
+      { ident := [88], disabled := true } ] }
+
+example : noOverlapB exampleEnum = true := by decide
+example : (exampleEnum.variants.map (·.ident)).Nodup := by decide
+example : ∃ p, genFromStr exampleEnum = .ok p := ⟨_, rfl⟩
+example : parse exampleEnum [82, 69, 68] = .ok (.ok [82, 101, 100] []) := by rfl
+example : parse exampleEnum [120] = .ok (.ok [79] [.captured [120]]) := by rfl
+
 end Strum
